@@ -3,7 +3,7 @@ cases, compare projected observables, evaluate direct predicates."""
 import fcntl
 import hashlib
 import json
-import os
+import os, shutil
 import subprocess
 import sys
 import time
@@ -86,13 +86,24 @@ def build_all(log):
             gen = os.path.join(tools, name)
             if not name.startswith("gen_") or not os.path.isdir(gen):
                 continue
+            # generate into a scratch directory and replace a file under coq/Gen only when its text
+            # changed, so that make does not recompile everything that depends on it on every run
+            tmp = os.path.join(BUILD, "gen-tmp", name)
+            shutil.rmtree(tmp, ignore_errors=True)
+            os.makedirs(tmp, exist_ok=True)
             if name == "gen_callgraph":
-                cmd = ["go", "run", ".", "-dir", REPO, "-o", os.path.join(COQ, "Gen", "Gen_CallGraph.v")]
+                cmd = ["go", "run", ".", "-dir", REPO, "-o", os.path.join(tmp, "Gen_CallGraph.v")]
             else:
-                cmd = ["go", "run", ".", "-repo", REPO, "-out", os.path.join(COQ, "Gen")]
+                cmd = ["go", "run", ".", "-repo", REPO, "-out", tmp]
             p = sh(cmd, cwd=gen, env=GOENV, check=False)
             if p.returncode != 0:
                 status["gen_ok"] = False
+            for f in sorted(os.listdir(tmp)):
+                dst = os.path.join(COQ, "Gen", f)
+                new = open(os.path.join(tmp, f), "rb").read()
+                if not os.path.exists(dst) or open(dst, "rb").read() != new:
+                    with open(dst, "wb") as fh:
+                        fh.write(new)
             status["gen_log"] += "[%s] " % name + (p.stdout or b"").decode("utf8", "replace")[-1500:]
         # 2. coq
         if not os.path.exists(os.path.join(COQ, "Makefile")):
